@@ -93,14 +93,32 @@ func c01LayoutPredicates(src []byte) []string {
 	// a comment line that directly precedes a line starting with ")" and is indented less than or
 	// equal to that ")" line's content
 	for i := 0; i+1 < len(lines); i++ {
-		t := strings.TrimLeft(lines[i], "\t")
-		if (strings.HasPrefix(t, "//") || strings.HasPrefix(t, "/*")) && strings.HasPrefix(strings.TrimLeft(lines[i+1], "\t"), ")") {
-			ind := len(lines[i]) - len(t)
-			ind2 := len(lines[i+1]) - len(strings.TrimLeft(lines[i+1], "\t"))
-			if ind <= ind2 {
-				ps = append(ps, "comment-before-rparen-unindented")
-				break
+		if !strings.HasPrefix(strings.TrimLeft(lines[i+1], "\t"), ")") {
+			continue
+		}
+		// line i ends an own-line comment? (a //-comment, or the last line of a block comment)
+		k := i
+		t := strings.TrimLeft(lines[k], "\t")
+		if !strings.HasPrefix(t, "//") && !strings.HasPrefix(t, "/*") {
+			if !strings.HasSuffix(strings.TrimSpace(t), "*/") {
+				continue
 			}
+			for k >= 0 && !strings.Contains(lines[k], "/*") {
+				k--
+			}
+			if k < 0 {
+				continue
+			}
+			t = strings.TrimLeft(lines[k], "\t")
+			if !strings.HasPrefix(t, "/*") {
+				continue
+			}
+		}
+		ind := len(lines[k]) - len(t)
+		ind2 := len(lines[i+1]) - len(strings.TrimLeft(lines[i+1], "\t"))
+		if ind <= ind2 {
+			ps = append(ps, "comment-before-rparen-unindented")
+			break
 		}
 	}
 	// an own-line comment block that follows a blank line and is directly followed by a case /
@@ -337,7 +355,13 @@ func runC01(c *fw.Ctx) {
 					} else {
 						detail += obs.DiffContext(buf.Bytes(), src)
 					}
-					c.Violate("roundtrip/ParseDir", sigOf("roundtrip-parsedir", preds), detail, fn)
+					if !c01FailsAny(src) {
+						c.Violate("roundtrip/ParseDir", sigOf("roundtrip-parsedir", preds), detail, fn)
+					} else {
+						// the file fails on its own as well: classified like any other file
+						sig, _ := c01Signature(src)
+						c.Violate("roundtrip/ParseDir", sig, detail, fn)
+					}
 				}
 			}
 		})
